@@ -1,11 +1,12 @@
 """C09 - cartridge RAM is gated, banked and retained per controller."""
-from engine.driver import run_property, Task
+from engine.driver import run_property, Task, LemmaTask
+import props.wiring as wr
 from props.common import filter_tasks, TRUSTED, BASE_ASSUME
 import props.mem_common as mc
 
 MANIFEST = {
     "level": "proof",
-    "text": "For each controller Read and Write are verified against contracts with the number of RAM banks K symbolic over the sizes prepareRAM can allocate (1, 4, 8, 16): RAM is enabled exactly by a write with low nibble 0xA; while disabled A000-BFFF reads 0xFF and a write assigns nothing; while enabled a read returns and a write updates exactly cell [bank mod K][addr-A000] (MBC1 bank = mode ? bank2 : 0, MBC3/MBC5 4-bit bank register, MBC2 512 half-bytes echoed with the upper nibble reading 1 for every cell); the assigns clauses name only that cell, so every other cell of every bank keeps its contents across enable/disable and bank switches (retention as a frame condition); a ROM-only cartridge reads 0xFF at A000-BFFF. DumpRAM is proved to return the stored banks in order (loop invariants). prepareRAM is verified against the declared-size table (header code 02 -> 1 bank, 03 -> 4, 04 -> 16, 05 -> 8, none/MBC2 -> 1). The controller constructors are proved to start with cartridge RAM disabled, bank 0, holding the RAM banks they were given.",
+    "text": "For each controller Read and Write are verified against contracts with the number of RAM banks K symbolic over the sizes prepareRAM can allocate (1, 4, 8, 16): RAM is enabled exactly by a write with low nibble 0xA; while disabled A000-BFFF reads 0xFF and a write assigns nothing; while enabled a read returns and a write updates exactly cell [bank mod K][addr-A000] (MBC1 bank = mode ? bank2 : 0, MBC3/MBC5 4-bit bank register, MBC2 512 half-bytes echoed with the upper nibble reading 1 for every cell); the assigns clauses name only that cell, so every other cell of every bank keeps its contents across enable/disable and bank switches (retention as a frame condition); a ROM-only cartridge reads 0xFF at A000-BFFF. DumpRAM is proved to return the stored banks in order (loop invariants). prepareRAM is verified against the declared-size table (header code 02 -> 1 bank, 03 -> 4, 04 -> 16, 05 -> 8, none/MBC2 -> 1). The controller constructors are proved to start with cartridge RAM disabled, bank 0, holding the RAM banks they were given. The real newMBC is executed symbolically for every header with the page builders abstract: prepareRAM is given the header's own cartridge-type and RAM-size bytes (and prepareROM the ROM-size byte and the whole image), and the controller's rom/ram fields are exactly the slices the builders returned (lemma:controller).",
     "note": "Trusted: go/ssa, engine SSA semantics (z3 arrays), z3/cvc5. validN comes from construction (C11). 'A single 8 KiB bank when the header declares none' is prepareRAM's default arm (C11 construction obligations).",
     "technique": "function contracts + frame conditions (per-cell assigns) + representation invariant on the real go/ssa; z3",
     "design_ref": "DESIGN.md section 4 C09",
@@ -18,6 +19,8 @@ def tasks(ctx):
     ts.extend(mc.dump_tasks(ctx))
     ts.extend(mc.prepare_tasks(ctx, ("memory.prepareRAM",)))
     ts.extend(mc.constructor_tasks(ctx))
+    # the bank count the controller ends up with is the one prepareRAM builds for the header's own type and RAM-size bytes
+    ts.append(LemmaTask("lemma:controller", lambda c, e, ce: wr.controller_lemma(c, e, ce, two=False), ["memory.newMBC"]))
     return filter_tasks(ts)
 
 
